@@ -67,7 +67,12 @@ type result struct {
 
 func main() {
 	bound := flag.Int("bound", 2, "preemption bound (-1 = unbounded)")
+	free := flag.Int("free", 0, "free-running mode: N rounds of real concurrent passes per configuration (for -race builds)")
 	flag.Parse()
+	if *free > 0 {
+		freeRun(*free)
+		return
+	}
 	log.SetOutput(io.Discard)
 	analyzer.DisableCache = false
 	fs := &analyzer.Analyzer.Flags
@@ -185,4 +190,51 @@ func main() {
 		}
 	}
 	json.NewEncoder(os.Stdout).Encode(results)
+}
+
+// freeRun: real goroutines, real sync (no execution is active, so the shims fall through): concurrent
+// passes for each configuration from a fresh latch. Used under the race detector.
+func freeRun(rounds int) {
+	log.SetOutput(io.Discard)
+	analyzer.DisableCache = false
+	fs := &analyzer.Analyzer.Flags
+	configs := map[string][]string{"valid": {"-enable=captLocal", "-disable="}, "bad-go": {"-go=1.x"}, "empty": {"-enable=nosuch", "-disable="}}
+	bad := 0
+	for _, name := range []string{"valid", "bad-go", "empty"} {
+		fs.VisitAll(func(f *flag.Flag) { f.Value.Set(f.DefValue) })
+		if err := fs.Parse(configs[name]); err != nil {
+			panic(err)
+		}
+		for r := 0; r < rounds; r++ {
+			analyzer.VerifReset()
+			outs := make([]passOut, 8)
+			done := make(chan int, len(outs))
+			for i := range outs {
+				i := i
+				go func() {
+					defer func() { recover(); done <- i }()
+					_, err := analyzer.Analyzer.Run(mkPass(i%len(sources), &outs[i]))
+					if err != nil {
+						outs[i].Err = err.Error()
+					}
+				}()
+			}
+			for range outs {
+				<-done
+			}
+			nerr := 0
+			for _, o := range outs {
+				if o.Err != "" {
+					nerr++
+				}
+			}
+			if name != "valid" && nerr != 1 {
+				bad++
+				if bad <= 3 {
+					fmt.Printf("FREE-VIOLATION config=%s round=%d: the init error was reported %d times by 8 concurrent passes (sequentially: exactly once)\n", name, r, nerr)
+				}
+			}
+		}
+	}
+	fmt.Println("FREE-DONE")
 }
